@@ -5,7 +5,7 @@ import json, os, re, shutil, subprocess, sys
 ENV = dict(os.environ, GOFLAGS="-mod=mod", GOPROXY="off", GOSUMDB="off", GOTOOLCHAIN="local")
 def sh(cmd, cwd):
     cmd = 'set -o pipefail; ' + cmd
-    p = subprocess.run(["bash", "-c", cmd], cwd=cwd, env=ENV, stdout=subprocess.PIPE, stderr=subprocess.STDOUT, text=True)
+    p = subprocess.run(["bash", "-c", cmd], cwd=cwd, env=ENV, stdout=subprocess.PIPE, stderr=subprocess.STDOUT, text=True, errors="replace")
     return p.returncode, p.stdout
 pid, x = sys.argv[1], sys.argv[2]
 breaks = sys.argv[3].split(",") if len(sys.argv) > 3 else [pid]
@@ -40,7 +40,7 @@ dst = f"/verif/seeded/{pid}-{x}"
 os.makedirs(dst, exist_ok=True)
 shutil.copy(diff, f"{dst}/patch.diff"); shutil.copy(demo, f"{dst}/demo_test.go")
 desc = open(md).read() if os.path.exists(md) else ""
-meta = {"id": f"{pid}-{x}", "breaks": breaks, "source": "independent sub-agent given only the property text and a scratch worktree at repo commit 9c3f2c5",
+meta = {"id": f"{pid}-{x}", "breaks": breaks, "source": "independent sub-agent given only the property text and a scratch checkout of the repository at commit " + os.environ.get("SRC", "9c3f2c5") + " (no contract files, nothing from /verif)",
         "needs_to_manifest": desc, "confirmed": log,
         "ran": ["git apply patch.diff", "go build ./...", "go test -vet=off -count=1 ./... (only the two baseline failures)",
                 f"go test -run TestSeedDemo{x} (fails with the change, passes without)"]}
